@@ -332,7 +332,7 @@ int main(int argc,char **argv)
 	unlink(out); bv::open(out);
 	base_ms=ptime::milliseconds(ptime::now());
 	long seed=vt::envl("VERIF_SEED",1);
-	hstates.resize((size_t)rounds*(producers+1)*nops*(mode=="cancelrace"?40:(mode=="closerace"?3:1))+16);
+	hstates.resize((size_t)rounds*(producers+1)*nops*(mode=="cancelrace"?40:(mode=="closerace"?3:(mode=="restart"?2:1)))+16);
 	for(int r=0;r<rounds;r++) {
 		srv=new aio::io_service(reactor);
 		ran_count=0; reg_count=0;
@@ -372,6 +372,27 @@ int main(int argc,char **argv)
 		}
 		booster::thread loop((loop_runner()));
 		std::vector<booster::thread *> th;
+		if(mode=="restart") {
+			// run, stop from another thread while the loop is idle in poll, reset(), run again: handlers given to the
+			// restarted loop from other threads must still be woken up and run
+			usleep(2000);
+			pingpong(nops,seed*37+r*11+reactor,keep[0],keep2[0]);
+			usleep(3000);
+			srv->stop();
+			loop.join();
+			bv::emit("\"e\":\"Restart\"");
+			srv->reset();
+			booster::thread loop2((loop_runner()));
+			usleep(3000);
+			pingpong(nops,seed*41+r*13+reactor,keep[0],keep2[0]);
+			bv::emit("\"e\":\"Quiesce\",\"reg\":%ld,\"ran\":%ld",reg_count.load(),ran_count.load());
+			if(ran_count.load()<reg_count.load()) { bv::close(); _exit(0); }
+			srv->stop();
+			loop2.join();
+			keep.clear(); keep2.clear();
+			delete srv; srv=0;
+			continue;
+		}
 		if(mode=="dtimer") {
 			int nt = producers>4 ? 4 : producers;
 			for(int i=0;i<nt;i++) { dts[i].t=new aio::deadline_timer(*srv); dts[i].keep=&keep[0]; dt_start st={i,1+(int)((seed+r+i)%nops)}; srv->post(st); }
